@@ -35,6 +35,10 @@ class HelpResolver(DefaultResolver):
         config.enable_lenient_args_parsing()
 
         try:
+            # The result may hold the outcome of the strict parse made while
+            # choosing among default sub-commands: parse again, leniently
+            result = ResolveResult(result.command, result.raw_args)
+
             return super(HelpResolver, self).create_resolved_command(result)
         finally:
             config._lenient_args_parsing = lenient_args_parsing
